@@ -123,6 +123,12 @@ def Period.updateRegion (p : Period) (u : UpdIn) (b e : Int) (clear : Bool) : Pe
 def Period.effBegin (p : Period) (b : Int) (clear : Bool) : Int :=
   if clear then b else if b < numOf p.ve then numOf p.ve else b
 
+/-- The region the update function is invoked with by `UpdateRegion(b, e, clear)` (timeperiod.cpp:234:
+    `GetUpdate()->Invoke({ this, begin, end })` AFTER `begin` was moved up to `valid_end` and after the early
+    return): `none` = not invoked. -/
+def Period.asked (p : Period) (b e : Int) (clear : Bool) : Option (Int × Int) :=
+  if !clear && decide (e < numOf p.ve) then none else some (p.effBegin b clear, e)
+
 /-! ### Activation and the 300 s update timer -/
 
 /-- `TimePeriod::PurgeSegments(end)` (timeperiod.cpp:174-202): nothing happens without a window or
